@@ -17,7 +17,8 @@ import (
 func init() {
 	register(&Rule{ID: "R-flag-forwarding", Floor: 20, Run: ruleFlagForwarding,
 		Doc: "A flag-carrying traversal family is a set of functions over AST nodes with a bool parameter that they pass to one another in that position " +
-			"(fuzzer Transformer.Expression/expressionVariants/infixExpr with needsToBeStatic; Analyzer.ConvertType with createErrors). " +
+			"(fuzzer Transformer.Expression/expressionVariants/infixExpr with needsToBeStatic; Analyzer.ConvertType with createErrors); a bool field of the traversal driver that a member sets from its flag parameter carries the flag as well " +
+			"(then every assignment to that field inside the traversal must come from the flag parameter or restore a value saved from the field), and a local assigned once from the flag is the flag. " +
 			"For every call that (re-)enters the family: if the node argument is a component of a node of the family's own domain (e.g. an operand of the expression being rewritten, the inner type of a type) " +
 			"the flag argument must be the caller's own flag or a value implied by it (flag || x); a constant there silently changes the context for the sub-tree. " +
 			"A constant is legitimate exactly where a new context starts: the node argument is a component of a node outside the domain (a statement, a block, a declaration that carries the type) — decided from the owner struct's type, not by site. " +
@@ -25,9 +26,13 @@ func init() {
 			"Necessary: the flag is the only way the sub-traversal can know the restriction (static initialiser, error reporting mode) of its context."})
 }
 
+// travFlagPos: where a context flag is carried — the idx-th (bool) parameter of fn, or
+// (field != nil) a bool field of the traversal driver that a function of the family
+// sets from its flag parameter for the duration of a sub-traversal.
 type travFlagPos struct {
-	fn  *types.Func
-	idx int
+	fn    *types.Func
+	idx   int
+	field *types.Var
 }
 
 func ruleFlagForwarding(c *Ctx) []Obligation {
@@ -72,6 +77,7 @@ func travFlagPkg(c *Ctx, m *travModel, p *packages.Package) []Obligation {
 		fn   *types.Func
 		sg   *types.Signature
 		node int
+		recv types.Object // the receiver variable (nil: plain function / unnamed receiver)
 	}
 	fns := map[*types.Func]*fnInfo{}
 	var order []*fnInfo
@@ -81,9 +87,88 @@ func travFlagPkg(c *Ctx, m *travModel, p *packages.Package) []Obligation {
 			continue
 		}
 		sg := fn.Type().(*types.Signature)
-		fi := &fnInfo{fd, fn, sg, travNodeParam(m, sg)}
+		fi := &fnInfo{fd: fd, fn: fn, sg: sg, node: travNodeParam(m, sg)}
+		if fd.Recv != nil && len(fd.Recv.List) > 0 && len(fd.Recv.List[0].Names) > 0 {
+			fi.recv = info.Defs[fd.Recv.List[0].Names[0]]
+		}
 		fns[fn] = fi
 		order = append(order, fi)
+	}
+	// locals assigned exactly once: `x := e` makes x another name for e
+	defs := map[types.Object][]ast.Expr{}
+	for _, fi := range order {
+		ast.Inspect(fi.fd.Body, func(n ast.Node) bool {
+			switch x := n.(type) {
+			case *ast.AssignStmt:
+				for i, l := range x.Lhs {
+					id, ok := ast.Unparen(l).(*ast.Ident)
+					if !ok {
+						continue
+					}
+					o := info.Defs[id]
+					if o == nil {
+						o = info.Uses[id]
+					}
+					if o == nil {
+						continue
+					}
+					if len(x.Lhs) == len(x.Rhs) && (x.Tok == token.DEFINE || x.Tok == token.ASSIGN) {
+						defs[o] = append(defs[o], x.Rhs[i])
+					} else {
+						defs[o] = append(defs[o], nil, nil) // multi-value / compound assignment: not an alias
+					}
+				}
+			case *ast.ValueSpec:
+				for i, id := range x.Names {
+					if o := info.Defs[id]; o != nil {
+						if len(x.Names) == len(x.Values) {
+							defs[o] = append(defs[o], x.Values[i])
+						} else {
+							defs[o] = append(defs[o], nil)
+						}
+					}
+				}
+			case *ast.IncDecStmt:
+				if id, ok := ast.Unparen(x.X).(*ast.Ident); ok {
+					if o := info.Uses[id]; o != nil {
+						defs[o] = append(defs[o], nil, nil)
+					}
+				}
+			case *ast.UnaryExpr:
+				if x.Op == token.AND {
+					if id, ok := ast.Unparen(x.X).(*ast.Ident); ok {
+						if o := info.Uses[id]; o != nil {
+							defs[o] = append(defs[o], nil, nil) // address taken
+						}
+					}
+				}
+			}
+			return true
+		})
+	}
+	aliasOf := func(o types.Object) ast.Expr {
+		if v, ok := o.(*types.Var); !ok || v.IsField() {
+			return nil
+		}
+		if d := defs[o]; len(d) == 1 {
+			return d[0]
+		}
+		return nil
+	}
+	// the bool field of fi's receiver that e selects (recv.F), or nil
+	recvField := func(fi *fnInfo, e ast.Expr) *types.Var {
+		se, ok := ast.Unparen(e).(*ast.SelectorExpr)
+		if !ok || fi.recv == nil {
+			return nil
+		}
+		id, ok := ast.Unparen(se.X).(*ast.Ident)
+		if !ok || info.Uses[id] != fi.recv {
+			return nil
+		}
+		if v, ok := info.Uses[se.Sel].(*types.Var); ok && v.IsField() && travIsBool(v.Type()) {
+			return v
+		}
+		return nil
 	}
 	paramIdx := func(fi *fnInfo, o types.Object) int {
 		for i := 0; i < fi.sg.Params().Len(); i++ {
@@ -93,18 +178,56 @@ func travFlagPkg(c *Ctx, m *travModel, p *packages.Package) []Obligation {
 		}
 		return -1
 	}
-	// does expression e mention bool parameter object o positively (o, o || x, x || o)?
-	var implied func(e ast.Expr, o types.Object) bool
-	implied = func(e ast.Expr, o types.Object) bool {
+	// does expression e (in fi) carry the flag o — a bool parameter object or a bool field of the
+	// receiver — positively (o, o || x, x || o, or a local that is just another name for such a value)?
+	var impliedD func(fi *fnInfo, e ast.Expr, o types.Object, depth int) bool
+	impliedD = func(fi *fnInfo, e ast.Expr, o types.Object, depth int) bool {
+		if e == nil || depth > 4 {
+			return false
+		}
 		switch x := ast.Unparen(e).(type) {
 		case *ast.Ident:
-			return info.Uses[x] == o
+			if info.Uses[x] == o {
+				return true
+			}
+			if u := info.Uses[x]; u != nil {
+				if rhs := aliasOf(u); rhs != nil {
+					return impliedD(fi, rhs, o, depth+1)
+				}
+			}
+		case *ast.SelectorExpr:
+			if fv, ok := o.(*types.Var); ok && fv.IsField() {
+				return recvField(fi, x) == fv
+			}
 		case *ast.BinaryExpr:
 			if x.Op == token.LOR {
-				return implied(x.X, o) || implied(x.Y, o)
+				return impliedD(fi, x.X, o, depth) || impliedD(fi, x.Y, o, depth)
 			}
 		}
 		return false
+	}
+	implied := func(fi *fnInfo, e ast.Expr, o types.Object) bool { return impliedD(fi, e, o, 0) }
+	// the bool fields of fi's receiver struct
+	recvBoolFields := func(fi *fnInfo) []*types.Var {
+		rv := fi.sg.Recv()
+		if rv == nil || fi.recv == nil {
+			return nil
+		}
+		n := travNamed(rv.Type())
+		if n == nil {
+			return nil
+		}
+		st, ok := n.Underlying().(*types.Struct)
+		if !ok {
+			return nil
+		}
+		var out []*types.Var
+		for i := 0; i < st.NumFields(); i++ {
+			if travIsBool(st.Field(i).Type()) {
+				out = append(out, st.Field(i))
+			}
+		}
+		return out
 	}
 	// family positions: (f,p) passes p into (g,j)
 	parent := map[travFlagPos]travFlagPos{}
@@ -120,6 +243,14 @@ func travFlagPkg(c *Ctx, m *travModel, p *packages.Package) []Obligation {
 	}
 	inFam := map[travFlagPos]bool{}
 	edges := map[travFlagPos][]travFlagPos{}
+	link := func(a, b travFlagPos) {
+		inFam[a], inFam[b] = true, true
+		edges[a] = append(edges[a], b)
+		ra, rb := find(a), find(b)
+		if ra != rb {
+			parent[ra] = rb
+		}
+	}
 	for _, fi := range order {
 		if fi.node < 0 {
 			continue
@@ -139,14 +270,34 @@ func travFlagPkg(c *Ctx, m *travModel, p *packages.Package) []Obligation {
 				}
 				for pi := 0; pi < fi.sg.Params().Len(); pi++ {
 					po := fi.sg.Params().At(pi)
-					if travIsBool(po.Type()) && implied(call.Args[j], po) {
-						a, b := travFlagPos{fi.fn, pi}, travFlagPos{g.fn, j}
-						inFam[a], inFam[b] = true, true
-						edges[a] = append(edges[a], b)
-						ra, rb := find(a), find(b)
-						if ra != rb {
-							parent[ra] = rb
-						}
+					if travIsBool(po.Type()) && implied(fi, call.Args[j], po) {
+						link(travFlagPos{fn: fi.fn, idx: pi}, travFlagPos{fn: g.fn, idx: j})
+					}
+				}
+				// the flag is handed on from a field of the driver (set by a member of the family, see below)
+				for _, fv := range recvBoolFields(fi) {
+					if implied(fi, call.Args[j], fv) {
+						link(travFlagPos{field: fv}, travFlagPos{fn: g.fn, idx: j})
+					}
+				}
+			}
+			return true
+		})
+		// a function that stores its flag parameter in a field of the driver: the field carries the flag
+		ast.Inspect(fi.fd.Body, func(n ast.Node) bool {
+			as, ok := n.(*ast.AssignStmt)
+			if !ok || as.Tok != token.ASSIGN || len(as.Lhs) != len(as.Rhs) {
+				return true
+			}
+			for i, l := range as.Lhs {
+				fv := recvField(fi, l)
+				if fv == nil {
+					continue
+				}
+				for pi := 0; pi < fi.sg.Params().Len(); pi++ {
+					po := fi.sg.Params().At(pi)
+					if travIsBool(po.Type()) && implied(fi, as.Rhs[i], po) {
+						link(travFlagPos{fn: fi.fn, idx: pi}, travFlagPos{field: fv})
 					}
 				}
 			}
@@ -191,6 +342,9 @@ func travFlagPkg(c *Ctx, m *travModel, p *packages.Package) []Obligation {
 		if domain[r] == nil {
 			domain[r] = map[*types.Named]bool{}
 		}
+		if pos.field != nil {
+			continue
+		}
 		fi := fns[pos.fn]
 		t := fi.sg.Params().At(fi.node).Type()
 		if n := travNamed(t); n != nil && (m.codeIfc[n] || n == m.hmsType) {
@@ -223,7 +377,7 @@ func travFlagPkg(c *Ctx, m *travModel, p *packages.Package) []Obligation {
 					}
 				}
 			}
-			if d := m.decls[f]; d != nil && isIfcMethod && travSoleReturn(d.Fd.Body.List) == "false" {
+			if d := m.decls[f]; d != nil && isIfcMethod && travSoleReturnC(d.Pkg.TypesInfo, d.Fd.Body.List) == "false" {
 				return true
 			}
 		}
@@ -307,7 +461,7 @@ func travFlagPkg(c *Ctx, m *travModel, p *packages.Package) []Obligation {
 				return true
 			}
 			for j := 0; j < g.sg.Params().Len(); j++ {
-				if !inFam[travFlagPos{g.fn, j}] {
+				if !inFam[travFlagPos{fn: g.fn, idx: j}] {
 					continue
 				}
 				ow, fdn, self := ownerOf(fi, call.Args[g.node])
@@ -328,14 +482,14 @@ func travFlagPkg(c *Ctx, m *travModel, p *packages.Package) []Obligation {
 				}
 			}
 			if progHasGlobals && travNodeParam(m, s.fi.sg) >= 0 && len(m.carrierStructs(s.fi.sg.Params().At(travNodeParam(m, s.fi.sg)).Type())) > 0 {
-				staticFamily[find(travFlagPos{s.g.fn, s.j})] = fmt.Sprintf("%s enters with true for %s.%s of the program's top-level declarations", travFuncKey(p, s.fi.fd), s.owner.Short(), s.ownerFd)
+				staticFamily[find(travFlagPos{fn: s.g.fn, idx: s.j})] = fmt.Sprintf("%s enters with true for %s.%s of the program's top-level declarations", travFuncKey(p, s.fi.fd), s.owner.Short(), s.ownerFd)
 			}
 		}
 	}
 	var obs []Obligation
 	seen := map[string]int{}
 	for _, s := range sites {
-		gpos := travFlagPos{s.g.fn, s.j}
+		gpos := travFlagPos{fn: s.g.fn, idx: s.j}
 		root := find(gpos)
 		flagName := s.g.sg.Params().At(s.j).Name()
 		what := "?"
@@ -354,10 +508,18 @@ func travFlagPkg(c *Ctx, m *travModel, p *packages.Package) []Obligation {
 		}
 		ob := Obligation{Key: key, Pos: c.Pos(s.call.Pos()), Nontrivial: true}
 		arg := s.call.Args[s.j]
-		// the caller's own flag position in the same family
+		// the caller's own flag position in the same family: a parameter, or the driver field that carries the flag
 		var callerFlag types.Object
+		for _, fv := range recvBoolFields(s.fi) {
+			if pp := (travFlagPos{field: fv}); inFam[pp] && find(pp) == root {
+				callerFlag = fv
+			}
+		}
 		for pi := 0; pi < s.fi.sg.Params().Len(); pi++ {
-			if pp := (travFlagPos{s.fi.fn, pi}); inFam[pp] && find(pp) == root {
+			if pp := (travFlagPos{fn: s.fi.fn, idx: pi}); inFam[pp] && find(pp) == root {
+				if callerFlag != nil && !implied(s.fi, arg, s.fi.sg.Params().At(pi)) && implied(s.fi, arg, callerFlag) {
+					continue // the argument is the field, which this function has set from its parameter
+				}
 				callerFlag = s.fi.sg.Params().At(pi)
 			}
 		}
@@ -369,7 +531,7 @@ func travFlagPkg(c *Ctx, m *travModel, p *packages.Package) []Obligation {
 		sort.Strings(domNames)
 		dom := strings.Join(domNames, "/")
 		switch {
-		case callerFlag != nil && implied(arg, callerFlag):
+		case callerFlag != nil && implied(s.fi, arg, callerFlag):
 			ob.Status, ob.Detail = Discharged, fmt.Sprintf("passes `%s`, implied by the caller's flag %s", exprStr(arg), callerFlag.Name())
 		case s.owner == nil && !s.self && travIsCallResult(info, s.fi.fd, s.call.Args[s.g.node]):
 			ob.Status, ob.Detail = Discharged, fmt.Sprintf("flag argument `%s`: `%s` is a freshly produced tree (a call result), not a component of the node being traversed: a new root", exprStr(arg), exprStr(s.call.Args[s.g.node]))
@@ -401,6 +563,54 @@ func travFlagPkg(c *Ctx, m *travModel, p *packages.Package) []Obligation {
 			}
 		}
 		obs = append(obs, ob)
+	}
+	// a flag carried in a field of the driver: inside the traversal it may only be set from the flag
+	// parameter of a family member (a sub-traversal starts) or put back to a value saved from it (it ends)
+	seenW := map[string]int{}
+	for _, fi := range order {
+		if fi.node < 0 {
+			continue
+		}
+		ast.Inspect(fi.fd.Body, func(n ast.Node) bool {
+			as, ok := n.(*ast.AssignStmt)
+			if !ok || len(as.Lhs) != len(as.Rhs) {
+				return true
+			}
+			for i, l := range as.Lhs {
+				fv := recvField(fi, l)
+				if fv == nil || !inFam[travFlagPos{field: fv}] {
+					continue
+				}
+				root := find(travFlagPos{field: fv})
+				key := fmt.Sprintf("%s|sets the flag field %s", travFuncKey(p, fi.fd), fv.Name())
+				seenW[key]++
+				if seenW[key] > 1 {
+					key = fmt.Sprintf("%s#%d", key, seenW[key])
+				}
+				ob := Obligation{Key: key, Pos: c.Pos(as.Pos()), Nontrivial: true}
+				rhs := as.Rhs[i]
+				asg := exprStr(l) + " " + as.Tok.String() + " " + exprStr(rhs)
+				fromParam := false
+				for pi := 0; pi < fi.sg.Params().Len(); pi++ {
+					if pp := (travFlagPos{fn: fi.fn, idx: pi}); inFam[pp] && find(pp) == root && implied(fi, rhs, fi.sg.Params().At(pi)) {
+						fromParam = true
+					}
+				}
+				switch {
+				case as.Tok != token.ASSIGN:
+					ob.Status, ob.Detail = Undecided, fmt.Sprintf("compound assignment `%s` to the flag field %s", asg, fv.Name())
+				case fromParam:
+					ob.Status, ob.Detail = Discharged, fmt.Sprintf("`%s`: set from the function's own flag parameter (a sub-traversal starts in the context its caller asks for)", asg)
+				case implied(fi, rhs, fv):
+					ob.Status, ob.Detail = Discharged, fmt.Sprintf("`%s`: put back to a value saved from the field itself (the sub-traversal is over)", asg)
+				default:
+					ob.Status = Violated
+					ob.Detail = fmt.Sprintf("`%s` overwrites the context flag %s of the traversal with a value that derives neither from the function's flag parameter nor from the saved field: the rest of the traversal runs in the wrong context", asg, fv.Name())
+				}
+				obs = append(obs, ob)
+			}
+			return true
+		})
 	}
 	return obs
 }
